@@ -104,6 +104,8 @@ pub(crate) fn park(location: Location) {
     if switch {
         Scheduler::switch();
     }
+
+    execution(|execution| execution.threads.active_mut().park_returned());
 }
 
 /// Blocks the current thread until another thread wakes it
